@@ -56,6 +56,8 @@ def gen(rng, tier):
                                     tag=tag, meta={"law": "idem"}))
                     out.append(Case("fuse", ty, rng.choice(FAMS), "ref", [n, opk, 1], flat_op(w1) + flat_op(w1),
                                     tag=tag, meta={"law": "idem"}))
+                    out.append(Case("fuse", ty, rng.choice(FAMS), rng.choice(["self", "self_ref"]), [n, opk, 1],
+                                    flat_op(w1) + flat_op(w1), tag=tag, meta={"law": "idem"}))
                 # vacuous operand is neutral (ACm, Wgh)
                 vac = ([0.0] * n, 1.0, w2[2])
                 for opk in (0, 3):
